@@ -27,10 +27,42 @@ func (u *Unit) subFact(t Term) {
 	u.assume("(= (rootid " + t + ") (rootid " + root + "))")
 }
 
-// load reads a value of Go type t stored at addr.
+// elemComp returns the element-array component for slices whose elements have Go type et (one array per element
+// type: slices of different element types never share a backing array).
+func (u *Unit) elemComp(et types.Type) string {
+	es := u.sorts.sortOf(et)
+	name := "E_" + smtIdent(TypeKey(et))
+	if len(name) > 70 {
+		name = name[:70]
+	}
+	u.setCompSort(name, "(Array Int (Array Int "+es+"))")
+	u.sorts.elemSorts[es] = true
+	if u.elemComps == nil {
+		u.elemComps = map[string]bool{}
+	}
+	u.elemComps[name] = true
+	return name
+}
+
+// fieldComp returns the heap component holding field i of struct type st (Burstall-Bornat: one array per field,
+// indexed by the address of the struct - an object, or sub(parent, k) for a struct embedded by value).
+func (u *Unit) fieldComp(st types.Type, i int) string {
+	si := u.sorts.structOf(st)
+	name := "F_" + strings.TrimPrefix(si.sort, "S_") + "_" + si.fields[i].name
+	u.setCompSort(name, "(Array Ref "+si.fields[i].sort+")")
+	return name
+}
+
+func isStructType(t types.Type) bool {
+	_, ok := t.Underlying().(*types.Struct)
+	return ok
+}
+
+// load reads a value of Go type t stored at addr. For a struct, addr is the struct's address and the value is
+// assembled from its fields; for anything else addr is a plain pointer (not a field address) into the typed heap.
 func (u *Unit) load(st *State, addr Term, t types.Type) Term {
 	s := u.sorts.sortOf(t)
-	if _, ok := t.Underlying().(*types.Struct); ok {
+	if isStructType(t) {
 		si := u.sorts.structOf(t)
 		if si.opaque {
 			return "unit"
@@ -40,7 +72,13 @@ func (u *Unit) load(st *State, addr Term, t types.Type) Term {
 		}
 		var fs []Term
 		for i, f := range si.fields {
-			fs = append(fs, u.load(st, u.mkSub(addr, i), f.typ))
+			if isStructType(f.typ) {
+				fs = append(fs, u.load(st, u.mkSub(addr, i), f.typ))
+			} else if f.sort == SUnit {
+				fs = append(fs, "unit")
+			} else {
+				fs = append(fs, sel(u.get(st, u.fieldComp(t, i)), addr))
+			}
 		}
 		return app(si.ctor, fs...)
 	}
@@ -50,16 +88,22 @@ func (u *Unit) load(st *State, addr Term, t types.Type) Term {
 	return sel(u.get(st, "H_"+s), addr)
 }
 
-// storeTo writes a value of Go type t at addr.
+// storeTo writes a value of Go type t at addr (see load).
 func (u *Unit) storeTo(st *State, addr Term, t types.Type, v Term) {
 	s := u.sorts.sortOf(t)
-	if _, ok := t.Underlying().(*types.Struct); ok {
+	if isStructType(t) {
 		si := u.sorts.structOf(t)
 		if si.opaque {
 			return
 		}
 		for i, f := range si.fields {
-			u.storeTo(st, u.mkSub(addr, i), f.typ, "("+f.sel+" "+v+")")
+			fv := "(" + f.sel + " " + v + ")"
+			if isStructType(f.typ) {
+				u.storeTo(st, u.mkSub(addr, i), f.typ, fv)
+			} else if f.sort != SUnit {
+				c := u.fieldComp(t, i)
+				u.set(st, c, store(u.get(st, c), addr, fv))
+			}
 		}
 		return
 	}
@@ -69,16 +113,23 @@ func (u *Unit) storeTo(st *State, addr Term, t types.Type, v Term) {
 	u.set(st, "H_"+s, store(u.get(st, "H_"+s), addr, v))
 }
 
-// havocAt stores fresh values at addr for type t; returns nothing.
+// havocAt stores fresh values at addr for type t.
 func (u *Unit) havocAt(st *State, addr Term, t types.Type) {
 	s := u.sorts.sortOf(t)
-	if _, ok := t.Underlying().(*types.Struct); ok {
+	if isStructType(t) {
 		si := u.sorts.structOf(t)
 		if si.opaque {
 			return
 		}
 		for i, f := range si.fields {
-			u.havocAt(st, u.mkSub(addr, i), f.typ)
+			if isStructType(f.typ) {
+				u.havocAt(st, u.mkSub(addr, i), f.typ)
+			} else if f.sort != SUnit {
+				v := u.fresh("hv", f.sort)
+				c := u.fieldComp(t, i)
+				u.set(st, c, store(u.get(st, c), addr, v))
+				u.typeFacts(st, v, f.typ)
+			}
 		}
 		return
 	}
@@ -88,6 +139,44 @@ func (u *Unit) havocAt(st *State, addr Term, t types.Type) {
 	v := u.fresh("hv", s)
 	u.set(st, "H_"+s, store(u.get(st, "H_"+s), addr, v))
 	u.typeFacts(st, v, t)
+}
+
+// loadPtr / storePtr / havocPtr access memory through a pointer value, which may be the address of a struct field.
+func (u *Unit) loadPtr(st *State, p Val, t types.Type) Term {
+	if p.FStruct != nil && !isStructType(t) {
+		if u.sorts.sortOf(t) == SUnit {
+			return "unit"
+		}
+		return sel(u.get(st, u.fieldComp(p.FStruct, p.FIdx)), p.FBase)
+	}
+	return u.load(st, p.T, t)
+}
+
+func (u *Unit) storePtr(st *State, p Val, t types.Type, v Term) {
+	if p.FStruct != nil && !isStructType(t) {
+		if u.sorts.sortOf(t) == SUnit {
+			return
+		}
+		c := u.fieldComp(p.FStruct, p.FIdx)
+		u.set(st, c, store(u.get(st, c), p.FBase, v))
+		return
+	}
+	u.storeTo(st, p.T, t, v)
+}
+
+func (u *Unit) havocPtr(st *State, p Val, t types.Type) {
+	if p.FStruct != nil && !isStructType(t) {
+		s := u.sorts.sortOf(t)
+		if s == SUnit {
+			return
+		}
+		v := u.fresh("hv", s)
+		c := u.fieldComp(p.FStruct, p.FIdx)
+		u.set(st, c, store(u.get(st, c), p.FBase, v))
+		u.typeFacts(st, v, t)
+		return
+	}
+	u.havocAt(st, p.T, t)
 }
 
 // typeFacts assumes the representation invariants of a freshly introduced value.
@@ -113,6 +202,8 @@ func (u *Unit) typeFacts(st *State, v Term, t types.Type) {
 		u.assume("(>= (tag " + v + ") 0)")
 		u.assume("(=> (= (tag " + v + ") 0) (= (val " + v + ") null))")
 	case *types.Slice:
+		// backing arrays of different slice types never alias
+		u.assume(fmt.Sprintf("(=> (not (= (sbase %s) 0)) (= (basetype (sbase %s)) %d))", v, v, u.P.tagOf(types.NewSlice(tt.Elem()))))
 		u.assume(fmt.Sprintf("(and (< (sbase %s) %s) (>= (sbase %s) 0) (>= (soff %s) 0) (>= (slen %s) 0) (<= (slen %s) (scap %s)) (=> (= (sbase %s) 0) (and (= (slen %s) 0) (= (scap %s) 0) (= (soff %s) 0))))",
 			v, u.get(st, "alloc"), v, v, v, v, v, v, v, v, v))
 	case *types.Struct:
